@@ -324,6 +324,56 @@ pub fn sorted_iter<T: Q, const N: usize>(tables: Tables) {
     cover!(true, "reach: end of harness");
 }
 
+/// The first `K` steps of a sorted consumption under a symbolic choice of ends: each
+/// yields an extreme of what remains. (Complete consumption is `sorted_iter`; this is the
+/// affordable form at the sizes where the trickle-down reaches the grandchildren of both
+/// children of the root. A defect that corrupts the order in one step shows at the next.)
+pub fn sorted_steps<T: Q, const N: usize, const K: usize>(tables: Tables) {
+    let (q, gh, want0) = pre_state::<T, N>(Pre::Inv, tables);
+    let mut it = q.into_sorted_iter_q();
+    let mut seen: u16 = 0;
+    let mut yielded = 0usize;
+    let mut step = 0;
+    let mut ends_differ = false;
+    let mut first_back = false;
+    while step < K {
+        if T::DOUBLE {
+            assert!(it.exact_len() == N - yielded, "SORT: len() is the number of elements remaining");
+        }
+        let back = if T::DOUBLE { sym::bool() } else { false };
+        if step == 0 {
+            first_back = back;
+        } else {
+            ends_differ |= back != first_back;
+        }
+        match if back { it.back() } else { it.next() } {
+            None => assert!(yielded == N, "SORT: None only after every element was yielded"),
+            Some((i, p)) => {
+                let k = i.key & 15;
+                assert!(want0.get(k) == Some((i.pay, p.0)), "SORT: yields stored elements");
+                assert!(seen & (1u16 << k) == 0, "SORT: no element is yielded twice (from either end)");
+                seen |= 1u16 << k;
+                yielded += 1;
+                let want_max = !T::DOUBLE || back;
+                let mut s = 0;
+                while s < N {
+                    if seen & (1u16 << gh.key[s]) == 0 {
+                        if want_max {
+                            assert!(p.0 >= gh.prio[s], "SORT: yields a maximum of what remains");
+                        } else {
+                            assert!(p.0 <= gh.prio[s], "SORT: yields a minimum of what remains");
+                        }
+                    }
+                    s += 1;
+                }
+            }
+        }
+        step += 1;
+    }
+    cover!(!T::DOUBLE || K < 2 || ends_differ, "both ends used");
+    cover!(true, "reach: end of harness");
+}
+
 /// into_sorted_vec / into_descending_sorted_vec (asc = false), into_ascending_sorted_vec
 pub fn sorted_vec<T: Q, const N: usize>(asc: bool, tables: Tables) {
     let (q, _gh, want0) = pre_state::<T, N>(Pre::Inv, tables);
